@@ -428,10 +428,120 @@ static void op_solve(const cfg &c, const crsd &A, const part &rp, const std::vec
     emit_solve("amg", desc, A, rp, f, xl, iters, resid, tol, maxiter, expect, fam);
 }
 
-// 2x2 block values: fixed (compile-time) composition
 typedef static_matrix<double, 2, 2> V2;
 typedef static_matrix<double, 2, 1> R2;
 typedef backend::builtin<V2> BB;
+// history on one object: construct(allow_rebuild) with A1, rebuild(A2 = 4 A1), solve / apply -- compared with a
+// hierarchy freshly built from A2 (a power-of-two scaling keeps strength, aggregates and transfer operators, so
+// both hierarchies are the same operator; every level including the direct coarse solver must have been refreshed)
+static void op_rebuild(const cfg &c, const crsd &A1, const part &rp, const std::vector<double> &f) {
+    ++CASEID;
+    double tol = 1e-8; int maxiter = 200;
+    ptree p;
+    p.put("precond.coarsening.type", c.coarsening);
+    p.put("precond.relax.type", c.relax);
+    p.put("precond.coarse_enough", 20);
+    p.put("precond.allow_rebuild", true);
+    p.put("precond.repart.enable", c.repart);
+    p.put("precond.repart.min_per_proc", 100000);
+    p.put("precond.repart.shrink_ratio", c.ratio);
+    p.put("solver.type", c.solver);
+    p.put("solver.tol", tol);
+    p.put("solver.maxiter", maxiter);
+    g_rec = rec_state();
+    crsd A2(A1); for (size_t j = 0; j < A2.nnz; ++j) A2.val[j] *= 4;
+    int nl = rp[R + 1] - rp[R];
+    std::vector<double> fl(f.begin() + rp[R], f.begin() + rp[R + 1]), x1(nl, 0.0), x2(nl, 0.0), y1(nl, 0.0), y2(nl, 0.0);
+    Solver S1(comm, make_dm(A1, rp), p);
+    S1.precond().rebuild(make_dm(A2, rp));
+    Solver S2(comm, make_dm(A2, rp), p);
+    size_t it1, it2; double r1, r2;
+    std::tie(it1, r1) = S1(fl, x1);
+    std::tie(it2, r2) = S2(fl, x2);
+    S1.precond().apply(fl, y1);
+    S2.precond().apply(fl, y2);
+    std::vector<double> Y1 = allgather_vec(y1), Y2 = allgather_vec(y2);
+    long double d = 0, nn = 0; for (size_t i = 0; i < Y1.size(); ++i) { d += (long double)(Y1[i] - Y2[i]) * (Y1[i] - Y2[i]); nn += (long double)Y2[i] * Y2[i]; }
+    std::string desc = c.coarsening + "/" + c.relax + "/" + c.solver + (c.repart ? "/merge" + std::to_string(c.ratio) : "/norepart") + "/rebuilt";
+    { vr::obj o; o.str("k", "rebuild").str("cfg", desc).i("case", CASEID).i("np", NP).ints("rp", rp).i("n", A1.nrows);
+      o.i("it_rebuilt", it1).i("it_fresh", it2).i("err", millidecades(nn > 0 ? sqrtl(d / nn) : sqrtl(d)));
+      o.raw("resbits_rebuilt", dv::gather_lists(bits_digest(r1))); put(o, true); }
+    // and the rebuilt object is truthful about the NEW system
+    emit_solve("amg", desc, A2, rp, f, x1, it1, r1, tol, maxiter, true, "spd_m");
+}
+
+// block smoothed aggregation with NON-COMMUTING coupling blocks: 2-D grid, x-links Wx, y-links Wy (SPD, Wx Wy != Wy Wx),
+// A_ij = -W, A_ii = sum of the W of the row (zero block row sums): the smoothed P must reproduce the block constants
+// (sum_j P_ij = I) on every aggregated row, R = P^T and Ac = R A P  (serial kernels on the scalar expansion as oracle)
+template <class DMB>
+static std::shared_ptr<crsd> assemble_block2(const DMB &A) {
+    part cp = part_of(A.loc_cols());
+    std::vector<double> pk;
+    const auto &L = *A.local(); const auto &Rm = *A.remote();
+    for (size_t i = 0; i < L.nrows; ++i) {
+        pk.push_back((L.ptr[i + 1] - L.ptr[i]) + (Rm.ptr[i + 1] - Rm.ptr[i]));
+        for (ptrdiff_t j = L.ptr[i]; j < L.ptr[i + 1]; ++j) { pk.push_back(L.col[j] + cp[R]); for (int a = 0; a < 2; ++a) for (int b = 0; b < 2; ++b) pk.push_back(L.val[j](a, b)); }
+        for (ptrdiff_t j = Rm.ptr[i]; j < Rm.ptr[i + 1]; ++j) { pk.push_back(Rm.col[j]); for (int a = 0; a < 2; ++a) for (int b = 0; b < 2; ++b) pk.push_back(Rm.val[j](a, b)); }
+    }
+    std::vector<double> all = allgather_vec(pk);
+    std::vector<std::vector<std::pair<int,double>>> rows;
+    for (size_t q = 0; q < all.size();) {
+        int w = (int)all[q++]; size_t r0 = rows.size(); rows.emplace_back(); rows.emplace_back();
+        for (int k = 0; k < w; ++k) { int c = (int)all[q++]; for (int a = 0; a < 2; ++a) for (int b = 0; b < 2; ++b) rows[r0 + a].push_back(std::make_pair(2 * c + b, all[q++])); }
+    }
+    return vr::from_rows((int)rows.size(), 2 * cp[NP], rows);
+}
+static void op_block_sa(vr::rng &g, int nx, int ny, const part &rpb) {
+    ++CASEID;
+    typedef mpi::distributed_matrix<BB> DMB;
+    const double Wx[2][2] = {{2, 1}, {1, 2}}, Wy[2][2] = {{1, 0}, {0, 3}};
+    int nb = nx * ny;
+    std::vector<std::vector<std::pair<int,double>>> rows(2 * nb);
+    for (int j = 0; j < ny; ++j) for (int i = 0; i < nx; ++i) {
+        int k = j * nx + i; double D[2][2] = {{0, 0}, {0, 0}};
+        std::vector<std::pair<int, const double(*)[2]>> nbrs;
+        if (j > 0) nbrs.push_back({k - nx, Wy}); if (i > 0) nbrs.push_back({k - 1, Wx});
+        if (i + 1 < nx) nbrs.push_back({k + 1, Wx}); if (j + 1 < ny) nbrs.push_back({k + nx, Wy});
+        for (auto &e : nbrs) for (int a = 0; a < 2; ++a) for (int b = 0; b < 2; ++b) D[a][b] += e.second[a][b];
+        std::vector<std::pair<int, double>> ent[2];
+        bool diag_done = false;
+        auto put_blk = [&](int c, const double M[2][2], double sgn) { for (int a = 0; a < 2; ++a) for (int b = 0; b < 2; ++b) rows[2 * k + a].push_back(std::make_pair(2 * c + b, sgn * M[a][b])); };
+        for (auto &e : nbrs) { if (!diag_done && e.first > k) { put_blk(k, D, 1); diag_done = true; } put_blk(e.first, e.second, -1); }
+        if (!diag_done) put_blk(k, D, 1);
+    }
+    auto A = vr::from_rows(2 * nb, 2 * nb, rows);
+    int rb = 2 * rpb[R], re = 2 * rpb[R + 1];
+    dv::strip s = dv::take_rows(*A, rb, re);
+    auto Ts = std::tie(s.n, s.ptr, s.col, s.val);
+    auto Ab = adapter::block_matrix<V2>(Ts);
+    DMB D(comm, Ab, (ptrdiff_t)(rpb[R + 1] - rpb[R]));
+    long crossing = 0; for (size_t i = 0; i < D.remote()->nrows; ++i) if (D.remote()->ptr[i + 1] > D.remote()->ptr[i]) ++crossing;
+    mpi::coarsening::smoothed_aggregation<BB>::params cp_; cp_.aggr.eps_strong = 0.08f;
+    mpi::coarsening::smoothed_aggregation<BB> C(cp_);
+    std::shared_ptr<DMB> P, Rt;
+    std::tie(P, Rt) = C.transfer_operators(D);
+    auto Ac = C.coarse_operator(D, *P, *Rt);
+    auto Ag = assemble_block2(D), Pg = assemble_block2(*P), Rg = assemble_block2(*Rt), Cg = assemble_block2(*Ac);
+    // block constants: sum_j P_ij = I_2 on every aggregated (non-empty) row
+    double es = 0; long aggregated = 0;
+    for (size_t i = 0; i < Pg->nrows; ++i) {
+        if (Pg->ptr[i] == Pg->ptr[i + 1]) continue;
+        ++aggregated;
+        double s0 = 0, s1 = 0; for (ptrdiff_t j = Pg->ptr[i]; j < Pg->ptr[i + 1]; ++j) (Pg->col[j] % 2 ? s1 : s0) += Pg->val[j];
+        double w0 = i % 2 == 0 ? 1 : 0, w1 = 1 - w0;
+        es = std::max(es, std::max(std::fabs(s0 - w0), std::fabs(s1 - w1)));
+    }
+    auto Tg = backend::transpose(*Pg);
+    auto Gg = backend::product(*Rg, *backend::product(*Ag, *Pg));
+    long cr = 0; { ll a = crossing, b = 0; PMPI_Allreduce(&a, &b, 1, MPI_LONG_LONG_INT, MPI_SUM, MPI_COMM_WORLD); cr = (long)b; }
+    vr::obj o; o.str("k", "blocksa").str("tag", "noncommuting").i("case", CASEID).i("np", NP).ints("rp", rpb).i("n", nb).i("nc", Pg->ncols / 2)
+        .i("crossing", cr).i("aggregated", aggregated)
+        .i("errSum", millidecades(es)).i("errR", millidecades(max_rel_diff(*Rg, *Tg))).i("errAc", millidecades(max_rel_diff(*Cg, *Gg)));
+    put(o, true);
+    (void)g;
+}
+
+// 2x2 block values: fixed (compile-time) composition
 static void op_solve_block(const crsd &A, const part &rp /* in block rows */, const std::vector<double> &f, const char *csn) {
     ++CASEID;
     typedef mpi::distributed_matrix<BB> DMB;
@@ -463,14 +573,19 @@ static void op_solve_block(const crsd &A, const part &rp /* in block rows */, co
 }
 
 // subdomain deflation and block preconditioner (non-empty subdomains)
-static void op_solve_sdd(const crsd &A, const part &rp, const std::vector<double> &f) {
+static void op_solve_sdd(const crsd &A, const part &rp, const std::vector<double> &f, int ndv = 1) {
     ++CASEID;
     typedef amgcl::amg<BD, amgcl::coarsening::smoothed_aggregation, amgcl::relaxation::spai0> Local;
     typedef mpi::subdomain_deflation<Local, runtime::mpi::solver::wrapper<BD>, mpi::direct::skyline_lu<double>> SDD;
     double tol = 1e-8; int maxiter = 200;
     ptree p;
-    std::function<double(ptrdiff_t, unsigned)> dvf = mpi::constant_deflation(1);
-    p.put("num_def_vec", 1);
+    // constant, linear and quadratic (in the local row number) deflation vectors per subdomain
+    int nloc = rp[R + 1] - rp[R];
+    std::function<double(ptrdiff_t, unsigned)> dvf = [nloc](ptrdiff_t i, unsigned j) {
+        double t = nloc > 1 ? (double)i / (nloc - 1) : 0.0;
+        return j == 0 ? 1.0 : (j == 1 ? t - 0.5 : (t - 0.5) * (t - 0.5));
+    };
+    p.put("num_def_vec", ndv);
     p.put("def_vec", static_cast<void*>(&dvf));
     p.put("isolver.type", "bicgstab");
     p.put("isolver.tol", tol);
@@ -480,7 +595,7 @@ static void op_solve_sdd(const crsd &A, const part &rp, const std::vector<double
     SDD S(comm, std::tie(s.n, s.ptr, s.col, s.val), p);
     size_t iters; double resid;
     std::tie(iters, resid) = S(fl, xl);
-    emit_solve("sdd", "subdomain_deflation/sa-spai0/bicgstab", A, rp, f, xl, iters, resid, tol, maxiter, true, "spd_m");
+    emit_solve("sdd", "subdomain_deflation/sa-spai0/bicgstab/ndv" + std::to_string(ndv), A, rp, f, xl, iters, resid, tol, maxiter, true, "spd_m");
 }
 static void op_solve_bp(const crsd &A, const part &rp, const std::vector<double> &f) {
     ++CASEID;
@@ -608,6 +723,19 @@ static void mode_solve(uint64_t seed, bool th) {
         bool expect = c.solver != "richardson";
         GUARD(op_solve(c, *A, rp, f, grid ? "poisson" : "spd_m", expect));
     }
+    // rebuild(4 A) on one object = a fresh hierarchy from 4 A (direct coarse level included)
+    for (int k = 0; k < (th ? 12 : 3); ++k) {
+        cfg c{COARS[k % 2], k % 3 == 2 ? "damped_jacobi" : "spai0", k % 2 ? "bicgstab" : "cg", g.coin(0.4), g.range(2, 3)};
+        auto A = g.coin() ? vr::poisson2d(g.range(8, 14), g.range(6, 12), g.range(1, 2), 1) : vr::random_mmatrix(g, g.range(60, 160), 0.04, 3, 1, true);
+        int n = A->nrows;
+        std::vector<double> f(n); for (auto &v : f) v = g.range(-5, 5); f[0] += 1;
+        GUARD(op_rebuild(c, *A, thin_part(g, n, g.below(4)), f));
+    }
+    // block smoothed aggregation with non-commuting coupling blocks
+    for (int k = 0; k < (th ? 10 : 4); ++k) {
+        int nx = g.range(4, 8), ny = g.range(4, 8);
+        GUARD(op_block_sa(g, nx, ny, thin_part(g, nx * ny, k % 2 ? 1 : 0)));
+    }
     // block values, subdomain deflation, block preconditioner
     for (int k = 0; k < (th ? 6 : 2); ++k) {
         int nb = g.range(30, 90);
@@ -626,7 +754,7 @@ static void mode_solve(uint64_t seed, bool th) {
         int n = A->nrows;
         std::vector<double> f(n); for (auto &v : f) v = g.range(-5, 5); f[0] += 1;
         part rp = thin_part(g, n, 0);          // balanced: the subdomain methods need non-empty subdomains
-        GUARD(op_solve_sdd(*A, rp, f));
+        for (int ndv = 1; ndv <= 3; ++ndv) GUARD(op_solve_sdd(*A, rp, f, ndv));
         GUARD(op_solve_bp(*A, rp, f));
     }
 }
